@@ -1,4 +1,5 @@
 import FuraxProofs.Props.C03
+import FuraxProofs.Props.ValidClosed
 #print axioms Furax.C03.transpose_resolution_pinned
 #print axioms Furax.C03.structures_swapped
 #print axioms Furax.C03.double_transpose_wrapper
@@ -18,3 +19,5 @@ import FuraxProofs.Props.C03
 #print axioms Furax.C03.transposeOp_denotes_adjoint
 #print axioms Furax.C03.env_adjoint_inhabited
 #print axioms Furax.C03.transpose_is_adjoint_closed_noEnv
+#print axioms Furax.Valid.validTb_iff
+#print axioms Furax.Valid.transpose_is_adjoint_closed
